@@ -518,3 +518,6 @@ def run(rep, facts, tier):
     rule_13_4(rep, fx)
     rule_13_5(rep, fx)
     rule_13_6(rep, fx)
+    # the completion signal of waiting for acknowledgments: a lost reader or an ACKNACK reaches the waiter, completion notifies (decided under C20; C13 names this signal too)
+    from rdv import report as _report
+    _report.borrow(rep, facts, tier, 'C20', {'R20.3': 'R13.8'})
